@@ -1390,3 +1390,6 @@ mut("followers_completed_only_on_success", ["C05", "C09"], "PAIR-16", patch="fol
 mut("memtable_before_wal_append", ["C05", "C08"], "ORD-2", patch="memtable_before_wal_append.diff")
 mut("every_wal_flagged_last", ["C02", "C01", "C16"], "GRD-28", patch="every_wal_flagged_last.diff")
 mut("final_recovery_flush_not_reported", ["C02", "C08"], "PAIR-17", patch="final_recovery_flush_not_reported.diff")
+mut("file_index_recorded_before_table_open", ["C04", "C08", "C03"], "ORD-21", patch="file_index_recorded_before_table_open.diff")
+mut("merge_step_before_reseek", ["C04", "C03"], "PAIR-8", patch="merge_step_before_reseek.diff")
+mut("trailer_write_error_swallowed", ["C08", "C15"], "ERR-1", patch="trailer_write_error_swallowed.diff")
